@@ -882,6 +882,206 @@ Proof.
   - intros q i Eq. rewrite Eq. cbn. rewrite N.eqb_refl. reflexivity.
 Qed.
 
+(** ** workspace level: a deployment of a settled build directory rewrites nothing *)
+
+Definition has (a : arts) (W : list (akey * art)) : Prop := forall k v, In (k, v) W -> aget a k = Some v.
+Definition norebuild (l : list logent) : Prop := forallb (fun e => negb (rebuilt_entry e)) l = true.
+
+Lemma norebuild_app l l' : norebuild l -> norebuild l' -> norebuild (l ++ l').
+Proof. unfold norebuild. intros H H'. rewrite forallb_app, H, H'. reflexivity. Qed.
+
+(** what the update of schema [x] writes - a function of the sources alone *)
+Definition pack_writes (s : srcs) (dck : N) (packs : list N) : list (akey * art) :=
+  flat_map (fun q =>
+    match lookup s (FDict q) with
+    | None => []
+    | Some v =>
+      match cids_of s (tables_of q (dinfo_of (fv_cid v))) with
+      | None => []
+      | Some fl => let files := fl ++ vocab_cids s (dinfo_of (fv_cid v)) in
+                   [(KTab q, ATab {| t_ck := crc_files dck files; t_files := files |})]
+      end
+    end) packs.
+
+Definition dict_writes (s : srcs) (d p : N) (packs : list N) (cy : cyaml) : list (akey * art) :=
+  match lookup s (FDict d) with
+  | None => []
+  | Some v =>
+    match cids_of s (tables_of d (dinfo_of (fv_cid v))) with
+    | None => []
+    | Some fl =>
+      let files := fl ++ vocab_cids s (dinfo_of (fv_cid v)) in
+      let dck := crc_files 0 files in
+      let nt := {| t_ck := dck; t_files := files |} in
+      (KTab d, ATab nt) :: (KRev d, ATab nt)
+      :: (KPrism p, APrism {| p_dck := dck; p_sck := cyid cy; p_tab := nt; p_cy := cy |})
+      :: pack_writes s dck packs
+    end
+  end.
+
+Definition schema_writes (s : srcs) (x : N) : list (akey * art) :=
+  match lookup s (FRes (RSchema x)) with
+  | None => []
+  | Some _ =>
+    let cy := build_config s (Some x) in
+    let info := info_of (cy_from cy) in
+    (KCy (Some x), ACy cy)
+    :: match si_dict info with
+       | None => []
+       | Some d => dict_writes s d (match si_prism info with Some p => p | None => d end) (si_packs info) cy
+       end
+  end.
+
+(** the schemas a deployment visits: the listed ones and their dependencies *)
+Definition targets (s : srcs) : list N :=
+  flat_map (fun x => x :: si_deps (info_of (cy_from (build_config s (Some x)))))
+           (list_of (cy_from (build_config s None))).
+
+(** every artefact the deployment would write is already there *)
+Definition settled (s : srcs) (a : arts) : Prop :=
+  aget a (KCy None) = Some (ACy (build_config s None)) /\
+  forall x, In x (targets s) -> has a (schema_writes s x).
+
+Lemma config_update_noop s t a :
+  In s Hist -> aget a (KCy t) = Some (ACy (build_config s t)) -> config_update s t a = (a, [LCfg t false]).
+Proof.
+  intros Hs Hg. unfold Stale.config_update, get_cy. rewrite Hg. rewrite (fresh_cy_not_stale s t Hs). reflexivity.
+Qed.
+
+Lemma compile_packs_noop s dck packs : forall a,
+  has a (pack_writes s dck packs) -> exists l, compile_packs s dck packs a = (a, l) /\ norebuild l.
+Proof.
+  induction packs as [|q r IH]; intros a Hh; cbn [Stale.compile_packs].
+  - exists []. split; reflexivity.
+  - assert (has a (pack_writes s dck r)) as Hr.
+    { intros k v Hin. apply Hh. unfold pack_writes. cbn [flat_map]. apply in_or_app. right. exact Hin. }
+    destruct (IH a Hr) as [l [El Hl]].
+    assert (forall v0, In (KTab q, v0) (pack_writes s dck [q]) -> aget a (KTab q) = Some v0) as Hq.
+    { intros v0 Hin. apply Hh. unfold pack_writes in *. cbn [flat_map] in *. rewrite app_nil_r in Hin.
+      apply in_or_app. left. exact Hin. }
+    unfold pack_writes in Hq. cbn [flat_map] in Hq. rewrite app_nil_r in Hq.
+    destruct (lookup s (FDict q)) as [v|].
+    2:{ rewrite El. exists (LPack q 0 :: l). split; auto. }
+    destruct (cids_of s (tables_of q (dinfo_of (fv_cid v)))) as [fl|].
+    2:{ rewrite El. exists (LPack q 3 :: l). split; auto. }
+    specialize (Hq _ (or_introl eq_refl)). unfold get_tab. rewrite Hq. cbn [stale_ck t_ck].
+    rewrite N.eqb_refl. cbn [negb]. rewrite El. exists (LPack q 2 :: l). split; auto.
+Qed.
+
+Lemma compile_noop s d p packs cy a :
+  has a (dict_writes s d p packs cy) -> lookup s (FDict d) <> None ->
+  exists l ok, compile s d p packs cy a = (a, l, ok) /\ norebuild l.
+Proof.
+  intros Hh Hsrc. unfold Stale.compile. unfold dict_writes in Hh.
+  destruct (lookup s (FDict d)) as [v|]; [|congruence].
+  destruct (cids_of s (tables_of d (dinfo_of (fv_cid v)))) as [fl|].
+  2:{ exists [LDictFail d], false. split; reflexivity. }
+  set (files := fl ++ vocab_cids s (dinfo_of (fv_cid v))) in *.
+  set (dck := crc_files 0 files) in *.
+  set (nt := {| t_ck := dck; t_files := files |}) in *.
+  pose proof (Hh _ _ (or_introl eq_refl)) as Ht.
+  pose proof (Hh _ _ (or_intror (or_introl eq_refl))) as Hr.
+  pose proof (Hh _ _ (or_intror (or_intror (or_introl eq_refl)))) as Hp.
+  assert (has a (pack_writes s dck packs)) as Hpk.
+  { intros k w Hin. apply Hh. right. right. right. exact Hin. }
+  destruct (compile_packs_noop s dck packs a Hpk) as [l [El Hl]].
+  unfold Stale.compile_core, get_tab, get_prism. rewrite Ht, Hr, Hp. cbn [stale_ck t_ck p_dck p_sck nt].
+  rewrite !N.eqb_refl. cbn [negb orb]. rewrite El.
+  exists (LDict d true false false :: l), true. split; auto.
+Qed.
+
+Lemma schema_update_noop s x dep a :
+  In s Hist -> (lookup s (FRes (RSchema x)) <> None -> sourced s x = true) ->
+  has a (schema_writes s x) ->
+  exists l ok, schema_update s x dep a = (a, l, ok) /\ norebuild l.
+Proof.
+  intros Hs Hsrc Hh. unfold Stale.schema_update. unfold schema_writes in Hh.
+  destruct (lookup s (FRes (RSchema x))) as [v|] eqn:El.
+  2:{ exists [LSchemaMissing x dep], dep. split; reflexivity. }
+  pose proof (Hh _ _ (or_introl eq_refl)) as Hcy.
+  rewrite (config_update_noop s (Some x) a Hs Hcy). unfold get_cy. rewrite Hcy.
+  assert (sourced s x = true) as Hsd by (apply Hsrc; congruence). unfold sourced in Hsd.
+  destruct (si_dict (info_of (cy_from (build_config s (Some x))))) as [d|].
+  2:{ exists [LCfg (Some x) false], true. split; reflexivity. }
+  assert (lookup s (FDict d) <> None) as Hd by (destruct (lookup s (FDict d)); congruence).
+  match goal with |- context [compile s d ?p ?pk ?cy a] =>
+    destruct (compile_noop s d p pk cy a) as [l [ok [Ec Hl]]]; [intros k w Hin; apply Hh; right; exact Hin | exact Hd |] end.
+  rewrite Ec. exists ([LCfg (Some x) false] ++ l), ok. split; auto.
+Qed.
+
+Lemma build_schema_noop s dep a l b ok x :
+  In s Hist -> (forall y, lookup s (FRes (RSchema y)) <> None -> sourced s y = true) ->
+  has a (schema_writes s x) -> norebuild l ->
+  exists l' b' ok', build_schema s dep (a, l, b, ok) x = (a, l', b', ok') /\ norebuild l'.
+Proof.
+  intros Hs Hsrc Hh Hl. unfold Stale.build_schema.
+  destruct (existsb (N.eqb x) b).
+  - exists l, b, ok. auto.
+  - destruct (schema_update_noop s x dep a Hs (Hsrc x) Hh) as [l2 [ok2 [E H2]]]. rewrite E.
+    exists (l ++ l2), (x :: b), (ok && ok2). split; auto. apply norebuild_app; auto.
+Qed.
+
+Lemma fold_build_noop s dep a ys : forall l b ok,
+  In s Hist -> (forall y, lookup s (FRes (RSchema y)) <> None -> sourced s y = true) ->
+  (forall y, In y ys -> has a (schema_writes s y)) -> norebuild l ->
+  exists l' b' ok', fold_left (build_schema s dep) ys (a, l, b, ok) = (a, l', b', ok') /\ norebuild l'.
+Proof.
+  induction ys as [|y r IH]; intros l b ok Hs Hsrc Hh Hl; cbn [fold_left].
+  - exists l, b, ok. auto.
+  - destruct (build_schema_noop s dep a l b ok y Hs Hsrc (Hh y (or_introl eq_refl)) Hl) as [l1 [b1 [ok1 [E H1]]]].
+    rewrite E. apply IH; auto. intros z Hz. apply Hh. right. exact Hz.
+Qed.
+
+Lemma visit_noop s a l b ok x :
+  In s Hist -> (forall y, lookup s (FRes (RSchema y)) <> None -> sourced s y = true) ->
+  lookup s (FRes (RSchema x)) <> None ->
+  has a (schema_writes s x) ->
+  (forall y, In y (si_deps (info_of (cy_from (build_config s (Some x))))) -> has a (schema_writes s y)) ->
+  norebuild l ->
+  exists l' b' ok', visit s (a, l, b, ok) x = (a, l', b', ok') /\ norebuild l'.
+Proof.
+  intros Hs Hsrc Hx Hh Hd Hl. unfold Stale.visit.
+  destruct (build_schema_noop s false a l b ok x Hs Hsrc Hh Hl) as [l1 [b1 [ok1 [E H1]]]]. rewrite E.
+  assert (get_cy a (KCy (Some x)) = Some (build_config s (Some x))) as Hcy.
+  { unfold get_cy. unfold schema_writes in Hh. destruct (lookup s (FRes (RSchema x))); [|congruence].
+    rewrite (Hh _ _ (or_introl eq_refl)). reflexivity. }
+  rewrite Hcy. apply fold_build_noop; auto.
+Qed.
+
+Lemma fold_visit_noop s a xs : forall l b ok,
+  In s Hist -> (forall y, lookup s (FRes (RSchema y)) <> None -> sourced s y = true) ->
+  (forall x, In x xs -> lookup s (FRes (RSchema x)) <> None) ->
+  (forall x, In x xs -> has a (schema_writes s x) /\
+     forall y, In y (si_deps (info_of (cy_from (build_config s (Some x))))) -> has a (schema_writes s y)) ->
+  norebuild l ->
+  exists l' b' ok', fold_left (visit s) xs (a, l, b, ok) = (a, l', b', ok') /\ norebuild l'.
+Proof.
+  induction xs as [|x r IH]; intros l b ok Hs Hsrc Hlist Hh Hl; cbn [fold_left].
+  - exists l, b, ok. auto.
+  - destruct (Hh x (or_introl eq_refl)) as [Hx Hd].
+    destruct (visit_noop s a l b ok x Hs Hsrc (Hlist x (or_introl eq_refl)) Hx Hd Hl) as [l1 [b1 [ok1 [E H1]]]].
+    rewrite E. apply IH; auto.
+    + intros z Hz. apply Hlist. right. exact Hz.
+    + intros z Hz. apply Hh. right. exact Hz.
+Qed.
+
+(** workspace-level no-op: the deployment of a settled build directory returns
+    the very same store and logs no rebuild *)
+Theorem noop_deploy_rewrites_nothing s a :
+  In s Hist -> wf_srcs s -> settled s a ->
+  exists l ok, deploy s a = (a, l, ok) /\ norebuild l.
+Proof.
+  intros Hs [Hdef [Hlist Hsrc]] [Hcd Hset]. unfold Stale.deploy.
+  rewrite (config_update_noop s None a Hs Hcd). unfold get_cy. rewrite Hcd.
+  destruct (fold_visit_noop s a (list_of (cy_from (build_config s None))) [LCfg None false] [] true Hs Hsrc Hlist)
+    as [l [b [ok [E Hl]]]].
+  - intros x Hx. split.
+    + apply Hset. unfold targets. apply in_flat_map. exists x. split; auto. left. reflexivity.
+    + intros y Hy. apply Hset. unfold targets. apply in_flat_map. exists x. split; auto. right. exact Hy.
+  - reflexivity.
+  - rewrite E. exists l, ok. split; auto.
+Qed.
+
 End Proofs.
 
 (** ** named hypotheses and full statements *)
